@@ -192,6 +192,33 @@ func Per(L, maxP int, emit Emit) {
 	}
 }
 
+// Byte enumerates, for every byte position, every value of that byte on the
+// backgrounds 0x00 and 0xFF (byte-wise arithmetic slips such as sign extension
+// or a carry out of one byte show here; 11-bit windows do not give every value
+// to the bytes that straddle two windows).
+func Byte(L int, emit Emit) {
+	for _, bg := range []byte{0x00, 0xFF} {
+		for p := 0; p < L; p++ {
+			for v := 0; v < 256; v++ {
+				e := fill(L, bg)
+				e[p] = byte(v)
+				emit(e)
+			}
+		}
+	}
+}
+
+// BytePair enumerates every value of every pair of adjacent bytes on a zero background.
+func BytePair(L int, emit Emit) {
+	for p := 0; p+1 < L; p++ {
+		for v := 0; v < 65536; v++ {
+			e := make([]byte, L)
+			e[p], e[p+1] = byte(v>>8), byte(v)
+			emit(e)
+		}
+	}
+}
+
 // Rep returns a small set of representative entropies of size L: 0, 1 and 2
 // leading zero bytes, all zeros, all ones, alternating, counting bytes, and
 // a trailing-zero one. Used as bases for sentence-level mutation scopes.
